@@ -938,13 +938,14 @@ def c06(tier, rng, fam='C06'):
     from . import gen
     out = []
     sub = 'quick'
-    fams = [gen.c01, gen.c02, gen.c03, c07, c11]
-    if hasattr(gen, 'c04'):
-        fams.append(gen.c04)
+    fams = [gen.c01, gen.c02, gen.c03, c07, c11, c04]
     for g in fams:
         ss = g(sub if tier == 'quick' else tier, rng)
         if tier == 'quick' and len(ss) > 150:
-            ss = rng.sample(ss, 150)
+            # (the families whose point is the ORDER of envelopes on the wire are always in)
+            keep = [x for x in ss if 'two goroutines' in x.get('tag', '')]
+            rest = [x for x in ss if 'two goroutines' not in x.get('tag', '')]
+            ss = keep + rng.sample(rest, 150 - len(keep))
         for s in ss:
             s['ofam'] = s['fam']
             s['fam'] = fam
